@@ -327,6 +327,16 @@ class Normaliser:
                 return True
             if isinstance(n, ast.If) and isinstance(n.test, ast.Constant):
                 return True
+            if isinstance(n, ast.Assign) and isinstance(n.targets[0], (ast.Tuple, ast.List)) \
+                    and isinstance(n.value, (ast.Tuple, ast.List)):
+                return True
+            if isinstance(n, (ast.Assign, ast.AnnAssign)) and getattr(n, 'value', None) is not None:
+                v_ = n.value
+                t_ = v_.value if isinstance(v_, ast.Subscript) else (
+                    v_.func.value if isinstance(v_, ast.Call) and isinstance(v_.func, ast.Attribute)
+                    and v_.func.attr == 'get' else None)
+                if isinstance(t_, ast.Name) and t_.id.isupper() or isinstance(t_, ast.Attribute) and t_.attr.isupper():
+                    return True
             if isinstance(n, ast.Call) and isinstance(n.func, ast.Attribute) and n.func.attr == 'join' \
                     and isinstance(n.func.value, ast.Constant) and len(n.args) == 1 and isinstance(n.args[0], ast.Call):
                 return True
@@ -364,7 +374,7 @@ class Normaliser:
     # ---- transformations -----------------------------------------------------------------
     def _expand_fn(self, fn: ast.AST, rel, mod, cls, stack, depth) -> bool:
         changed = False
-        for _ in range(4):
+        for _ in range(12):
             c1 = self._match_to_if(fn)
             c2 = self._ifexp_to_if(fn)
             c2 = self._format_to_fstring(fn) or c2
@@ -375,6 +385,11 @@ class Normaliser:
             c5 = self._unroll_constant_tables(fn, mod, cls)
             c5 = self._fold_constant_ifs(fn) or c5
             c5 = self._sink_table_loops(fn, mod, cls) or c5
+            for _k in range(8):
+                if not self._split_on_table_lookup(fn, mod, cls):
+                    break
+                c5 = True
+            c5 = self._split_tuple_assign(fn) or c5
             changed = changed or c1 or c2 or c3 or c4 or c5
             if not (c1 or c2 or c3 or c4 or c5):
                 break
@@ -636,9 +651,17 @@ class Normaliser:
             is_nt = any(ast.unparse(b).split('.')[-1] == 'NamedTuple' for b in cdef.bases)
             ok = True
             uses = []
+            method_names = {m.name for m in cdef.body if isinstance(m, ast.FunctionDef) and m.name not in props}
+            pending_methods = False
             for n in ast.walk(fn):
                 if isinstance(n, ast.Name) and n.id == name:
                     par = parent_of.get(id(n))
+                    gp = parent_of.get(id(par)) if par is not None else None
+                    if isinstance(par, ast.Attribute) and par.value is n and par.attr in method_names \
+                            and isinstance(gp, ast.Call) and gp.func is par:
+                        # byte_range.content_range(): for the inliner, which needs to know the class of the local
+                        pending_methods = True
+                        continue
                     if isinstance(n.ctx, ast.Store) and any(n is (d.targets[0] if isinstance(d, ast.Assign) else d.target)
                                                             for d in defs):
                         continue
@@ -655,6 +678,14 @@ class Normaliser:
                 if isinstance(n, (ast.Global, ast.Nonlocal)) and name in n.names:
                     ok = False
                     break
+            if ok and pending_methods:
+                locs = getattr(fn, '_local_classes', None)
+                if locs is None:
+                    locs = fn._local_classes = {}
+                if locs.get(name) is not cdef and self.baseline and cname in self.new_class_names():
+                    locs[name] = cdef
+                    changed = True          # another round: the method calls can be inlined now
+                continue
             if not ok or not uses:
                 continue
             # every constructor call must bind all fields plainly
@@ -841,6 +872,267 @@ class Normaliser:
                 cur = node
         return [ast.copy_location(head, m)] if head is not None else None
 
+    def _lookup_table(self, e: ast.AST, mod, cls):
+        """a class / module level name spelt as a constant and bound once to a dict display whose keys are
+        constants (or tuples of constants) and whose values are constants, names, attributes or tuples of
+        those -> (dict node, owner class or None) or None"""
+        owner = None
+        if isinstance(e, ast.Attribute) and isinstance(e.value, ast.Name):
+            if e.value.id in ('self', 'cls', 'clz') or (cls is not None and e.value.id == cls.name):
+                owner = cls
+            else:
+                owner = next((c for c in getattr(mod, 'body', []) if isinstance(c, ast.ClassDef)
+                              and c.name == e.value.id), None)
+            name = e.attr
+            if owner is None:
+                return None
+        elif isinstance(e, ast.Name):
+            name = e.id
+        else:
+            return None
+        if not name.isupper():
+            return None
+        body = owner.body if owner is not None else getattr(mod, 'body', [])
+        defs = [st.value for st in body
+                if (isinstance(st, ast.Assign) and len(st.targets) == 1 and isinstance(st.targets[0], ast.Name)
+                    and st.targets[0].id == name)
+                or (isinstance(st, ast.AnnAssign) and isinstance(st.target, ast.Name) and st.target.id == name
+                    and st.value is not None)]
+        # the table must not be changed anywhere in its module (TABLE[k] = .., TABLE.update(..))
+        for n in ast.walk(mod) if mod is not None else []:
+            if isinstance(n, (ast.Subscript, ast.Attribute)) and isinstance(getattr(n, 'ctx', None), (ast.Store, ast.Del)):
+                base = n.value
+                if (isinstance(base, ast.Name) and base.id == name) or (isinstance(base, ast.Attribute) and base.attr == name):
+                    return None
+            if isinstance(n, ast.Call) and isinstance(n.func, ast.Attribute) \
+                    and n.func.attr in ('update', 'pop', 'popitem', 'clear', 'setdefault', '__setitem__') \
+                    and ((isinstance(n.func.value, ast.Name) and n.func.value.id == name)
+                         or (isinstance(n.func.value, ast.Attribute) and n.func.value.attr == name)):
+                return None
+        if len(defs) != 1 or not isinstance(defs[0], ast.Dict) or not defs[0].keys or len(defs[0].keys) > 8:
+            return None
+        lit = defs[0]
+
+        def const_key(k) -> bool:
+            if isinstance(k, ast.Constant):
+                return isinstance(k.value, (str, int, bool, bytes)) or k.value is None
+            return isinstance(k, ast.Tuple) and bool(k.elts) and all(const_key(x) for x in k.elts)
+        if not all(k is not None and const_key(k) for k in lit.keys) or not all(self._simple_elem(v) for v in lit.values):
+            return None
+        return lit, owner
+
+    def _split_on_table_lookup(self, fn: ast.AST, mod, cls) -> bool:
+        """`x = TABLE[key]` / `a, b = TABLE[key]` / `x = TABLE.get(key[, default])` over a constant dict,
+        followed by code that uses x: one branch per distinct table value (`if key == K1: <rest with V1>
+        elif ..`), the rest of the block copied into each branch with the value written in.  A function
+        picked from a table becomes a direct call (and can be inlined), a status / text pair becomes
+        constants on each path."""
+        for blk in list(self._blocks(fn)):
+            for i, st in enumerate(blk):
+                if not (isinstance(st, (ast.Assign, ast.AnnAssign)) and getattr(st, 'value', None) is not None):
+                    continue
+                tg = st.targets[0] if isinstance(st, ast.Assign) and len(st.targets) == 1 else getattr(st, 'target', None)
+                if isinstance(tg, ast.Name):
+                    names = [tg.id]
+                elif isinstance(tg, (ast.Tuple, ast.List)) and all(isinstance(x, ast.Name) for x in tg.elts):
+                    names = [x.id for x in tg.elts]
+                else:
+                    continue
+                v = st.value
+                strict, default, key, tab = True, None, None, None
+                if isinstance(v, ast.Subscript) and not isinstance(v.slice, ast.Slice):
+                    tab, key = v.value, v.slice
+                elif isinstance(v, ast.Call) and isinstance(v.func, ast.Attribute) and v.func.attr == 'get' \
+                        and 1 <= len(v.args) <= 2 and not v.keywords:
+                    tab, key, strict = v.func.value, v.args[0], False
+                    default = v.args[1] if len(v.args) == 2 else ast.Constant(value=None)
+                    if not self._simple_elem(default):
+                        continue
+                else:
+                    continue
+                got = self._lookup_table(tab, mod, cls)
+                if got is None:
+                    continue
+                lit, owner = got
+                if any(isinstance(x, (ast.Call, ast.Await, ast.NamedExpr, ast.Yield)) for x in ast.walk(key)):
+                    continue
+                params = {a.arg for a in fn.args.args + fn.args.kwonlyargs} if hasattr(fn, 'args') else set()
+                stores: dict[str, int] = {}
+                for n in ast.walk(fn):
+                    if isinstance(n, ast.Name) and isinstance(n.ctx, (ast.Store, ast.Del)):
+                        stores[n.id] = stores.get(n.id, 0) + 1
+                if any(nm in params for nm in names):
+                    continue
+                tail = blk[i + 1:]
+                if not tail or sum(1 for t_ in tail for _ in ast.walk(t_) if isinstance(_, ast.stmt)) > 40:
+                    continue
+                in_tail = {id(x) for t_ in tail for x in ast.walk(t_)}
+                # the names are not bound again in the rest of the block ...
+                if any(isinstance(x, ast.Name) and x.id in names and isinstance(x.ctx, (ast.Store, ast.Del))
+                       for t_ in tail for x in ast.walk(t_)):
+                    continue
+                # ... and a read anywhere else sees another assignment of its own (a copy of this code in
+                # another branch): some earlier statement of a block around it binds the name
+
+                def bound_before(x: ast.AST) -> bool:
+                    for b2 in self._blocks(fn):
+                        for j, s2 in enumerate(b2):
+                            if any(y is x for y in ast.walk(s2)):
+                                for s1 in b2[:j]:
+                                    if s1 is not st and isinstance(s1, (ast.Assign, ast.AnnAssign)) and any(
+                                            isinstance(y, ast.Name) and y.id == x.id and isinstance(y.ctx, ast.Store)
+                                            for y in ast.walk(s1)):
+                                        return True
+                    return False
+                if any(isinstance(x, ast.Name) and x.id in names and isinstance(x.ctx, ast.Load) and id(x) not in in_tail
+                       and not bound_before(x) for x in ast.walk(fn)):
+                    continue
+                # names the key reads must not be names of the key's own table values (no capture issues)
+                class_names = set()
+                if owner is not None:
+                    for x in owner.body:
+                        if isinstance(x, ast.Assign):
+                            class_names |= {t.id for t in x.targets if isinstance(t, ast.Name)}
+                        elif isinstance(x, ast.AnnAssign) and isinstance(x.target, ast.Name):
+                            class_names.add(x.target.id)
+
+                def qualify(val: ast.AST) -> ast.AST:
+                    if owner is None:
+                        return clone(val)
+
+                    class Q(ast.NodeTransformer):
+                        def visit_Name(self, node):
+                            if node.id in class_names:
+                                return ast.Attribute(value=ast.Name(id=owner.name, ctx=ast.Load()), attr=node.id,
+                                                     ctx=ast.Load())
+                            return node
+                    return Q().visit(clone(val))
+
+                def boolish(e: ast.AST) -> bool:
+                    if isinstance(e, (ast.Compare, ast.BoolOp)) or (isinstance(e, ast.UnaryOp) and isinstance(e.op, ast.Not)):
+                        return True
+                    if isinstance(e, ast.Name):
+                        ds = [a_ for a_ in ast.walk(fn) if isinstance(a_, (ast.Assign, ast.AnnAssign))
+                              and getattr(a_, 'value', None) is not None
+                              and any(isinstance(t_, ast.Name) and t_.id == e.id
+                                      for t_ in (a_.targets if isinstance(a_, ast.Assign) else [a_.target]))]
+                        return bool(ds) and all(boolish(d.value) for d in ds) and stores.get(e.id) == len(ds)
+                    return False
+
+                def test_of(kexpr: ast.AST, k: ast.AST) -> ast.AST | None:
+                    if isinstance(k, ast.Tuple):
+                        if not (isinstance(kexpr, ast.Tuple) and len(kexpr.elts) == len(k.elts)):
+                            return None
+                        parts = [test_of(a_, b_) for a_, b_ in zip(kexpr.elts, k.elts)]
+                        if any(p_ is None for p_ in parts):
+                            return None
+                        return ast.BoolOp(op=ast.And(), values=parts) if len(parts) > 1 else parts[0]
+                    if isinstance(k.value, bool) and boolish(kexpr):
+                        return clone(kexpr) if k.value else ast.UnaryOp(op=ast.Not(), operand=clone(kexpr))
+                    if isinstance(k.value, bool):
+                        return None             # 1 == True: a bool key with a key of unknown type is not split
+                    return ast.Compare(left=clone(kexpr), ops=[ast.Eq()], comparators=[clone(k)])
+                groups: list[tuple[ast.AST, list[ast.AST]]] = []          # (value, tests)
+                ok = True
+                for k, val in zip(lit.keys, lit.values):
+                    t = test_of(key, k)
+                    if t is None:
+                        ok = False
+                        break
+                    for g in groups:
+                        if ast.dump(g[0]) == ast.dump(val):
+                            g[1].append(t)
+                            break
+                    else:
+                        groups.append((val, [t]))
+                if not ok:
+                    continue
+
+                def branch(val: ast.AST) -> list[ast.stmt] | None:
+                    val = qualify(val)
+                    if len(names) == 1:
+                        mapping = {names[0]: val}
+                    else:
+                        if not (isinstance(val, (ast.Tuple, ast.List)) and len(val.elts) == len(names)):
+                            return None
+                        mapping = dict(zip(names, val.elts))
+                    body = clone(tail)
+                    holder = ast.Module(body=body, type_ignores=[])
+                    _Sub(mapping, {}).visit(holder)
+                    return holder.body
+                arms = []
+                for val, tests in groups:
+                    b_ = branch(val)
+                    if b_ is None:
+                        ok = False
+                        break
+                    arms.append((ast.BoolOp(op=ast.Or(), values=tests) if len(tests) > 1 else tests[0], b_))
+                if not ok:
+                    continue
+                if strict:
+                    last: list[ast.stmt] = [ast.Raise(exc=ast.Call(func=ast.Name(id='KeyError', ctx=ast.Load()),
+                                                                   args=[clone(key)], keywords=[]), cause=None)]
+                else:
+                    last = branch(default)
+                    if last is None:
+                        continue
+                # a key made of truth values with every combination listed: the last arm needs no test
+                def truth_slots(kexpr) -> int | None:
+                    if isinstance(kexpr, ast.Tuple):
+                        return len(kexpr.elts) if all(boolish(x) for x in kexpr.elts) else None
+                    return 1 if boolish(kexpr) else None
+                slots = truth_slots(key)
+                combos = set()
+                for k in lit.keys:
+                    ks = k.elts if isinstance(k, ast.Tuple) else [k]
+                    if all(isinstance(x, ast.Constant) and isinstance(x.value, bool) for x in ks):
+                        combos.add(tuple(x.value for x in ks))
+                exhaustive = slots is not None and len(combos) == 2 ** slots and all(len(c_) == slots for c_ in combos)
+                if exhaustive and len(arms) == 1:
+                    blk[i:] = arms[0][1]
+                    return True
+                node = None
+                for n_arm, (t, b_) in enumerate(reversed(arms)):
+                    if exhaustive and n_arm == 0:
+                        last = b_
+                        continue
+                    node = ast.If(test=t, body=b_, orelse=([node] if node is not None else last))
+                ast.copy_location(node, st)
+                ast.fix_missing_locations(node)
+                blk[i:] = [node]
+                return True
+        return False
+
+    def _split_tuple_assign(self, fn: ast.AST) -> bool:
+        """`a, b = (x, y)` where neither x nor y reads a or b: `a = x; b = y`"""
+        changed = False
+        for blk in list(self._blocks(fn)):
+            i = 0
+            while i < len(blk):
+                st = blk[i]
+                i += 1
+                if not (isinstance(st, ast.Assign) and len(st.targets) == 1
+                        and isinstance(st.targets[0], (ast.Tuple, ast.List))
+                        and isinstance(st.value, (ast.Tuple, ast.List))
+                        and len(st.targets[0].elts) == len(st.value.elts) and len(st.value.elts) > 1
+                        and all(isinstance(t, ast.Name) for t in st.targets[0].elts)
+                        and not any(isinstance(v, ast.Starred) for v in st.value.elts)):
+                    continue
+                tnames = {t.id for t in st.targets[0].elts}
+                if len(tnames) != len(st.targets[0].elts):
+                    continue
+                if any(isinstance(x, ast.Name) and x.id in tnames for v in st.value.elts for x in ast.walk(v)):
+                    continue
+                if any(isinstance(x, (ast.Lambda, ast.NamedExpr, ast.Yield, ast.Await)) for v in st.value.elts
+                       for x in ast.walk(v)):
+                    continue
+                new = [ast.copy_location(ast.Assign(targets=[t], value=v), st)
+                       for t, v in zip(st.targets[0].elts, st.value.elts)]
+                blk[i - 1:i] = new
+                i += len(new) - 1
+                changed = True
+        return changed
+
     def _sink_table_loops(self, fn: ast.AST, mod, cls) -> bool:
         """if c: t = TABLE_A / elif d: t = TABLE_B / else: t = () ; for x in t: body  (a table chosen by
         a helper, after inlining): the loop moves into each branch, over that branch's table.  Only
@@ -1023,6 +1315,29 @@ class Normaliser:
                     changed = True
                     return ast.copy_location(ast.Attribute(value=node.args[0], attr=node.args[1].value,
                                                            ctx=ast.Load()), node)
+                if isinstance(node.func, ast.Attribute) and node.func.attr == 'format' \
+                        and isinstance(node.func.value, ast.Constant) and isinstance(node.func.value.value, str) \
+                        and node.keywords and not node.args and all(k.arg is not None for k in node.keywords) \
+                        and not any(isinstance(x, (ast.Call, ast.Await, ast.NamedExpr)) for k in node.keywords
+                                    for x in ast.walk(k.value)):
+                    # '{start}-{end}'.format(start=a, end=b): named fields, plain values
+                    tmpl = node.func.value.value
+                    parts = _re.split(r'(\{[A-Za-z_]\w*\})', tmpl)
+                    if '{' in ''.join(p_ for p_ in parts if not _re.fullmatch(r'\{[A-Za-z_]\w*\}', p_)) \
+                            or '}' in ''.join(p_ for p_ in parts if not _re.fullmatch(r'\{[A-Za-z_]\w*\}', p_)):
+                        return node
+                    kw = {k.arg: k.value for k in node.keywords}
+                    values = []
+                    for p_ in parts:
+                        m = _re.fullmatch(r'\{([A-Za-z_]\w*)\}', p_)
+                        if m:
+                            if m.group(1) not in kw:
+                                return node
+                            values.append(ast.FormattedValue(value=clone(kw[m.group(1)]), conversion=-1, format_spec=None))
+                        elif p_:
+                            values.append(ast.Constant(value=p_))
+                    changed = True
+                    return inner.visit_JoinedStr(ast.copy_location(ast.JoinedStr(values=values), node))
                 if isinstance(node.func, ast.Attribute) and node.func.attr == 'format' \
                         and isinstance(node.func.value, ast.Constant) and isinstance(node.func.value.value, str) \
                         and not node.keywords and not any(isinstance(a, ast.Starred) for a in node.args):
